@@ -2961,6 +2961,8 @@ EXT = {
     "math.log": unary(alg.log),
     "scipy.special.gamma": sp_gamma,
     "numba.set_num_threads": noop,
+    "numba.prange": lambda I, a, k, n: builtin(I, "range", a, k, n, None),  # the iterations of a parallel range, in any order
+    "numba.get_num_threads": lambda I, a, k, n: alg.sym("numba_threads", pos=True, integer=True),
     "warnings.warn": noop,
     "atexit.register": noop,
     "pyfftw.interfaces.cache.enable": noop,
